@@ -1024,6 +1024,7 @@ mod test {
 
 /// Verification harness (child module: reaches the private noise sampler). `--cfg ipa_verif` only.
 #[cfg(all(test, ipa_verif))]
+#[allow(warnings, clippy::all, clippy::pedantic)]
 pub(crate) mod verif_h4 {
     include!(concat!(env!("IPA_VERIF_DIR"), "/harness/h4_dp.rs"));
 }
